@@ -228,6 +228,37 @@ def check(prog: Program, run: Run) -> None:
         run.violation("C14.R1", "VariantMatcher._update_cache", "store",
                       "_update_cache does not store the response under the request bytes", u.loc)
 
+    # the cache must hold a snapshot of the response, not an alias of the caller's buffer:
+    # at least one site between evaluate(resp_bytes) and cache[request] = ... copies the value
+    SNAP = ("bytes", "bytearray", "copy", "deepcopy")
+
+    def is_snapshot(e: ast.AST, of: str) -> bool:
+        if isinstance(e, ast.Call) and call_name(e) in SNAP and e.args and of in ast.unparse(
+                e.args[0]):
+            return True
+        return isinstance(e, ast.Subscript) and isinstance(e.slice, ast.Slice) and \
+            e.slice.lower is None and e.slice.upper is None and of in ast.unparse(e.value)
+    ev = prog.func("VariantMatcher.evaluate")
+    evp = ev.params()[1]
+    ev_store = [x for x in walk_no_nested(ev.node) if isinstance(x, ast.Assign) and
+                "_recent_ident_response" in ast.unparse(x.targets[0])]
+    snap_eval = bool(ev_store) and all(is_snapshot(x.value, evp) for x in ev_store)
+    upd_calls = [x for x in ast.walk(fn) if isinstance(x, ast.Call) and call_name(x) ==
+                 "_update_cache" and len(x.args) == 2]
+    snap_call = bool(upd_calls) and all(is_snapshot(c.args[1], resp) for c in upd_calls)
+    snap_store = len(stores) == 1 and is_snapshot(stores[0].value, ps[2])
+    if snap_eval or snap_call or snap_store:
+        where = [w for w, b in (("evaluate()", snap_eval), ("the _update_cache call", snap_call),
+                                ("_update_cache", snap_store)) if b]
+        run.ok("C14.R1", "request_loop", f"the cached response is a snapshot (copied in "
+               f"{', '.join(where)})", ev.loc)
+    else:
+        run.violation("C14.R1", "VariantMatcher.evaluate", "response-aliased",
+                      "neither evaluate() nor the cache store copies the response: the cache keeps "
+                      "an alias of the caller's buffer, so a caller that re-uses one bytearray "
+                      "for all responses makes every cache hit return the most recent response "
+                      "(the outcome then differs between use_cache=True and False)", ev.loc)
+
     # ---------------------------------------------------------- R2 accumulation / exits
     _accumulation(run, f, cfg, cand, pat, par, variant)
 
